@@ -20,7 +20,7 @@ CHECKS = {
          "Every plugin's handler arguments (container on create, resources on update) are compared with the reference model after the earlier plugins; a no-op last plugin's view is compared with what the runtime obtains from the combined reply; update requests carry device cgroup rules that every plugin must see.",
          "Trusts the reference apply-adjustment model; nil vs empty collections are treated as equal."),
  "C05": (EX, "DESIGN.md §3 C05", "runtime monitoring: response Update lists vs reference per-target field model",
-         "Update lists of create/update/stop responses from the real adaptation are checked for one entry per target with exactly the owners' fields, own entry last, self-update failing, dropped ignore-failure updates (scalar, map and list fields) leaking nothing; for cases whose outcome is open (a plugin naming one item twice) only one-entry-per-target and no repeated page size are asserted.",
+         "Update lists of create/update/stop responses from the real adaptation are checked for one entry per target with exactly the owners' fields, own entry last, self-update failing, dropped ignore-failure updates (scalar, map and list fields) leaking nothing; for cases whose outcome is open (a plugin naming one item twice) only one-entry-per-target and no repeated page size are asserted. Since the eighth wave also through an adaptation with no plugin at all (never any / after the last one left).",
          "Flag value of a combined entry and blank entries for targets whose only updates were dropped are not asserted (unstated)."),
  "C06": (EX, "DESIGN.md §3 C06", "runtime monitoring: unique-id handler-invocation log and call/return log of a real Adaptation with stub plugins, offline exactly-once/order checkers, porcupine sequencer model, race detector, CPU-affinity sweeps",
          "Plugins with enumerated/sampled subscription masks (all 8192 in the thorough tier), tied and distinct indices, registering before and during traffic, receive random sequences of the thirteen lifecycle calls from 1/4/16 concurrent callers, with and (in a separate scenario with 60 registrations) without sync blocks, after an idle period longer than the request timeout, and after callers cancelled their own requests; the logs are checked for exactly-once delivery to subscribed active plugins, index order, one common order, real-time order and own results.",
@@ -29,7 +29,7 @@ CHECKS = {
          "Every listed fault (peer close before/on/after, cut after k bytes of request or response, handler hang, malformed frames, unknown connection id, stalled 1 MiB request, flooding peer that stops reading, handler error from raw peers and, for all thirteen request kinds, from stub-based plugins) is injected at first/middle/last position for each request type, alone and in pairs, followed by two healthy requests; the request must complete in time with exactly the survivors' contributions, survivors invoked once, failed plugin dropped; handler errors must veto.",
          "Cuts of the runtime-to-plugin direction are applied at the peer's end of the real socket; multi-gigabyte length fields are not injected."),
  "C08": (EX, "DESIGN.md §3 C08", "runtime monitoring: exactly-once checker over snapshot/creation id logs, online monitor of held sync blocks vs running synchronisations, hook-widened race windows, race detector",
-         "Concurrent creators under sync blocks and plugins registering meanwhile, in every fifth round against a store whose snapshot is split in two or three messages with one registration cut mid-snapshot and repeated; for every registered plugin and every container of the runtime's store, snapshot membership plus creation events must be exactly one; the sync callback must never run while a block is held; pending registrations must complete, and (bounded progress, hook sync.request) get their turn within a few all-blocks-released moments.",
+         "Concurrent creators under sync blocks and plugins registering meanwhile, in every fifth round against a store whose snapshot is split in two or three messages with one registration cut mid-snapshot and repeated; for every registered plugin and every container of the runtime's store, snapshot membership plus creation events must be exactly one; the sync callback must never run while a block is held; pending registrations must complete, and (bounded progress, hook sync.request) get their turn within a few all-blocks-released moments. Since the eighth/ninth wave: all twelve request kinds that need no sync block are relayed meanwhile, and every second round has a plugin speaking the protocol directly that answers Configure with an empty mask.",
          "The runtime side follows the documented sync-block contract; schedules are those produced by 1-16 CPUs, repetition and the hook yields."),
  "C09": (EX, "DESIGN.md §3 C09", "runtime monitoring: generated runtime states against a stub plugin (reassembled handler arguments) and a raw protocol peer (per-message chunk log), process-liveness supervision, race detector",
          "States from empty to 20000 objects in many size distributions (boundary totals around the 4 MiB limit, skewed shapes forcing the minimum chunk) are synchronized by the real adaptation; states whose objects are <= 64 KiB or whose eight largest objects fit one message must be delivered exactly once in order, others may fail cleanly; panics, partial states, empty-chunk loops and hangs are violations; plus a re-registration history after an aborted split, pre-installed plugins synchronized at Start, and a plugin without a Synchronize handler.",
@@ -41,7 +41,7 @@ CHECKS = {
          "Fault points are enumerated for a fixed exchange (every byte offset in the thorough tier, all frame boundaries plus a stride in quick) and sampled for close timing/closer counts/overflow positions, plus transient short writes at every offset, listener close races and connections obtained after a failure; oracles: prefix property, every blocked/later operation errors, EOF after orderly close, closers return.",
          "Completeness is not asserted for a close racing unread data; overflow is exercised on the buffering socketpair trunk only."),
  "C12": (EX, "DESIGN.md §3 C12", "runtime monitoring: descriptor-driven differential execution of the two generated codecs (cross-decode, round trips, size, presence)",
-         "Every message type with the specialised codec (found through the registry at run time) is populated field by field and at random; both encoders' bytes are decoded by the other decoder and compared with proto.Equal plus an explicit presence walk; SizeVT is compared with the bytes written; unknown fields of a later protocol revision must survive both codecs.",
+         "Every message type with the specialised codec (found through the registry at run time) is populated field by field and at random; both encoders' bytes are decoded by the other decoder and compared with proto.Equal plus an explicit presence walk; SizeVT is compared with the bytes written; unknown fields of a later protocol revision must survive both codecs. Since the ninth wave every length-delimited field is also swept through the varint boundaries of its length prefix (118..136, 16370..16390 bytes).",
          "Valid UTF-8 strings and non-nil repeated/map message values only; the wasm call path itself cannot be driven here, the codec pair is executed natively."),
  "C14": (EX, "DESIGN.md §3 C14", "runtime monitoring: round-trip and aliasing oracles over generated values; exhaustive enumeration of the 8191 event masks; race detector",
          "All 8191 event masks enumerated; every optional constructor x accepted type x boundary value; random resources/mounts/devices/hooks/env through both round trips with presence-aware comparison; Copy() compared, address-walked and mutated; ToOCI() results written through without changing the original; the mask parser used concurrently from its first call on, under the race detector.",
@@ -50,7 +50,7 @@ CHECKS = {
          "Random specs x adjustments applied by the real generator 16/32 times each; result compared with a reference interpreter written from the statement, with itself across repetitions, and checked for parent-before-child mounts and an untouched remainder; the adjustment object itself must be left unchanged and the CDI injector called once.",
          "Memory limit also setting swap is taken as intended (asserted by the repo's own suite); rshared/rslave propagation excluded (reads the host mount table)."),
  "C15": (EX, "DESIGN.md §3 C15", "runtime monitoring: plugin types generated and compiled at check time, driven by a scripted raw runtime; handler-invocation recorder and response comparison; race detector",
-         "One struct type per subset of the thirteen handler interfaces (all 8192 in the thorough tier) is generated, compiled and run against a raw protocol peer: subscription mask, configuration-time subsets and rejections, exactly-once dispatch of every event to exactly its handler with equal arguments, results and errors returned unchanged; Synchronize in 1-4 messages, and after a connection lost mid-synchronization.",
+         "One struct type per subset of the thirteen handler interfaces (all 8192 in the thorough tier) is generated, compiled and run against a raw protocol peer: subscription mask, configuration-time subsets and rejections, exactly-once dispatch of every event to exactly its handler with equal arguments, results and errors returned unchanged; Synchronize in 1-4 messages, and after a connection lost mid-synchronization. Since the eighth wave configuration masks written as strings (api.ParseEventMask) are checked against a table in the harness and through six real stub plugins.",
          "The runtime end is a harness peer on the public multiplexer and generated ttRPC stubs; unimplemented events are only checked for the absence of stray invocations."),
  "C16": (FE, "DESIGN.md §3 C16", "runtime monitoring with fault injection: cut-wrapper on the stub's own connection at enumerated handshake byte offsets, Start/Stop/Wait/loss histories, hang rule with goroutine dumps, hook-delayed close notification, race detector",
          "The handshake is cut at byte offsets in both directions (every offset in the thorough tier) and fixed plus random histories of Start, failing Start, Stop, Wait, connection loss are executed; every call must return, a later Start on a fresh connection must work and survive the earlier session's late notification, the close notification fires once per established session; a configuration result of a dead session must not satisfy the next Start.",
